@@ -13,6 +13,7 @@ CONSTANTS
   SignedArm = FALSE
   AtomicWrites = TRUE
   WriteLock = FALSE
+  AtomicDown = TRUE
   CompleteOnDownError = TRUE
   MaxFaults = 0
   MaxCancels = 0
